@@ -89,7 +89,7 @@ func TestC07(t *testing.T) {
 	gen := func(yield func(vt.Case)) {
 		cfg := func(rnd *rand.Rand) map[string]any {
 			return map[string]any{"frame": 0, "rbatch": []int{0, 0, 1, 2}[rnd.Intn(4)], "lazy": rnd.Intn(2) == 0,
-				"skip": rnd.Intn(4) == 0, "promold": rnd.Intn(3) == 0, "samples": rnd.Intn(3) == 0}
+				"skip": rnd.Intn(4) == 0, "setext": rnd.Intn(3) == 0, "promold": rnd.Intn(3) == 0, "samples": rnd.Intn(3) == 0}
 		}
 		genWorldCases(t, rnd, vt.Pick(20, 200), vt.Pick(10, 100), vt.Pick(18, 30), vt.Pick(12, 20), cfg, yield)
 	}
@@ -101,7 +101,7 @@ func TestC07(t *testing.T) {
 		if err != nil {
 			t.Fatalf("building world: %v", err)
 		}
-		ts := b.tsdbStore(vt.Int(cfg["frame"]))
+		ts := b.tsdbStoreExt(vt.Int(cfg["frame"]), vt.Bool(cfg["setext"]))
 		bs, err := b.bucketStore(world.BucketOpts{LazyPostings: vt.Bool(cfg["lazy"])})
 		if err != nil {
 			t.Fatalf("bucket store: %v", err)
